@@ -16,6 +16,7 @@ def run_case(c, pid):
   out = {}
   x0 = jnp.asarray(np.array(c['xs'][0], dtype=np.int64))
   res = {}
+  L.TRACE_TRACED[0] = True
   for mode in ('lifted', 'plain'):
     L.LIFT[0] = mode == 'lifted'
     m = L.top_module(prog, pid, c['sels'][0])
@@ -40,10 +41,50 @@ def run_case(c, pid):
       r['calls'] = calls
     res[mode] = r
   L.LIFT[0] = True
+  L.TRACE_TRACED[0] = False
   return res
 
 
+def probe():
+  """F26: a jitted module class whose instances differ only in a closure-valued attribute"""
+  import random
+  import flax.linen as nn
+  from typing import Callable
+
+  class Inner(nn.Module):
+    f: Callable
+
+    @nn.compact
+    def __call__(self, x):
+      return self.f(x)
+  JInner = nn.jit(Inner)
+
+  def make(k):
+    def post(y):
+      return y * k
+    return post
+
+  class Outer(nn.Module):
+    f: Callable
+
+    @nn.compact
+    def __call__(self, x):
+      return JInner(self.f)(x)
+  rng = random.Random(0)
+  bad = []
+  for i in range(120):
+    k = rng.choice([1, -1, 2, 3])
+    f = make(k)
+    y = float(Outer(f).apply({}, jnp.asarray(1.0)))
+    del f
+    if y != float(k):
+      bad.append([i, k, y])
+  return {'F26-jit-stale-trace-closure': {'fails': bool(bad), 'stale_calls': bad[:5], 'count': len(bad)}}
+
+
 def main(payload):
+  if payload.get('probe'):
+    return probe()
   res = []
   for i, c in enumerate(payload['cases']):
     try:
